@@ -479,10 +479,74 @@ def guard_facts(cx, site_pos):
                     r.append((L, False, False))
                 if both:
                     r.append((add(both[1], both[0], -1), o == "<", False))
+            elif an["k"] == "call" and pol and an.get("o"):
+                r = _predicate_facts(cx, a, gpos)
             cx.lin[key] = r
         if cx.lin[key]:
             out.extend(cx.lin[key])
     return out
+
+
+def _predicate_facts(cx, call, gpos):
+    """`if (!in_range_p(bv, i)) raise ...`: a one-return predicate of the same unit whose result is a conjunction of
+    comparisons over its parameters (and lengths of its parameters) holds - each conjunct becomes a fact about the
+    arguments"""
+    fn = cx.fn
+    nd = fn.nodes[call]
+    g = fn.unit.functions.get(nd["o"])
+    if g is None or not g.blocks or g is fn:
+        return None
+    rets = [g.strip(x["c"][0]) for x in g.nodes if x["k"] == "ret" and x.get("c")]
+    if len(rets) != 1:
+        return None
+    conj = []
+
+    def split(n, depth=0):
+        n = g.strip(n)
+        gn = g.nodes[n]
+        if gn["k"] == "bin" and gn["o"] == "&&" and depth < 8:
+            split(gn["c"][0], depth + 1)
+            split(gn["c"][1], depth + 1)
+        elif gn["k"] == "bin" and gn["o"] in REL_NEG:
+            conj.append(n)
+    split(rets[0])
+    if not conj:
+        return None
+    args = nd["c"][1:]
+    pnames = {g.vars[p]["n"]: k for k, p in enumerate(g.params)}
+    cxg = Ctx(g)
+    gat = (g.entry, 0)
+
+    def translate(form):
+        out = (form[0], {})
+        for t, c in form[1].items():
+            base = t.split("->")[0]
+            if base not in pnames or pnames[base] >= len(args):
+                return None
+            a = args[pnames[base]]
+            if t == base:
+                m = canon(cx, a, gpos)
+                if (fn.type(fn.strip(a)) or "") == SEXP_T:
+                    return None
+            else:
+                m = (0, {fn.txt(fn.strip(a)) + t[len(base):]: 1})
+            out = add(out, (m[0] * c, {k: v * c for k, v in m[1].items()}))
+        return out
+    facts = []
+    for n in conj:
+        gn = g.nodes[n]
+        o = gn["o"]
+        l, rr = gn["c"]
+        L, R = canon(cxg, l, gat), canon(cxg, rr, gat)
+        if o in (">", ">="):
+            L, R = R, L
+            o = "<" if o == ">" else "<="
+        L2, R2 = translate(L), translate(R)
+        if L2 is None or R2 is None:
+            continue
+        uns = "unsigned long" in ((g.type(l) or ""), (g.type(rr) or ""))
+        facts.append((add(R2, L2, -1), o == "<", uns))
+    return facts or None
 
 
 def bounds(facts, ix, len_term):
